@@ -117,6 +117,14 @@ CLAIMS["C08"] = {
     "design_ref": "DESIGN.md §5 C08",
 }
 
+CLAIMS["C16"] = {
+    "technique": "static analysis: sink/argument analysis and dominance in save_object (atomic replace protocol), sibling agreement between svalue_save_size and save_svalue (switch case sets, constant and per-iteration store counts vs accounted sizes), store-after-parse ordering in safe_restore_svalue",
+    "text": "Decides the structural clauses: a save can only replace the final file by rename() of a fully written, successfully closed temporary derived from the approved path, and failures remove the temporary; "
+            "the size pass and the write pass of the serializer handle the same tags and never write more constant/delimiter bytes than were accounted, and callers allocate exactly that size; "
+            "the no-clear restore stores into the variable only after a successful parse. Round-trip equality of values and robustness of the restore parser on arbitrary text are behavioural and not decided.",
+    "design_ref": "DESIGN.md §5 C16",
+}
+
 NOT_APPLICABLE = {
     "C18": "Line/trace correctness is a value-level question about run-length tables (encode in the code generator, decode in find_line); no clause of it is visible in the shape of the code, so static analysis gives no verdict (DESIGN.md §6).",
 }
